@@ -470,11 +470,12 @@ func (c *Collection) CreateIndex(name string, config IndexConfig) (string, error
 		}
 	}
 
-	// return if existing index is equal
+	// return if existing index is equal, otherwise the name is taken
 	if index, ok := c.Indexes[name]; ok {
 		if config.Equal(index.Config()) {
 			return name, nil
 		}
+		return "", fmt.Errorf("existing index %q has a different configuration", name)
 	}
 
 	// check duplicate
